@@ -805,6 +805,26 @@ func c16Misc(ctx *run.Ctx) {
 			}
 			cc.Count("pipeline_runs", 1)
 		}
+		// Head returns at once: its caller may well start the producer afterwards
+		// (a Head that waited for its values inside the call would deadlock here)
+		{
+			src := []int{7, 8, 9, 10, 11}
+			c := make(chan int)
+			h := helper.Head(c, 3)
+			go func() {
+				defer close(c)
+				for _, x := range src {
+					c <- x
+				}
+			}()
+			head := helper.ChanToSlice(h)
+			rest := helper.ChanToSlice(c)
+			if !eqSlice(head, src[:3]) || !eqSlice(rest, src[3:]) {
+				cc.Viol("", fmt.Sprintf("Head(c, 3) with the producer started after the call: got %v and left %v of %v", head, rest, src), nil)
+				return
+			}
+			cc.Count("pipeline_runs", 1)
+		}
 		cc.Count("pipeline_runs", 2)
 		cc.Distinct("special-values")
 	})
